@@ -137,7 +137,7 @@ impl SingleSubLowerer<'_, '_> {
 
             Err(def_id) => {
                 // exported sub
-                let sub_info = self.sub_info.unwrap();
+                let sub_info = self.sub_info.ok_or_else(|| self.unsupported(stmt_span, "call to a user-defined function"))?;
                 match self.ctx.defs.user_func_qualifier(def_id).expect("isn't user func?") {
                     Some(sp_pat!(token![inline])) => Err(self.unsupported(stmt_span, "call to inline func")),
                     Some(sp_pat!(token![const])) => panic!("leftover const func call during lowering"),
